@@ -42,6 +42,7 @@ var spendReasons = map[string]bool{"txn: input not unspent": true, "double spend
 var hourReasons = map[string]bool{"txn: insufficient hours": true, "txn: input hours sum overflow": true}
 
 type ledgerSim struct {
+	beforeExec  func()                // runs once, right before the next block is handed to a node
 	refused     map[int][]model.Block // per node: blocks it has refused so far (they may be offered again, see opReoffer)
 	early       map[model.Hash]bool   // header hashes of refused blocks that were ahead of the node's head when refused
 	c           *sim.Ctx
@@ -333,6 +334,36 @@ func (s *ledgerSim) opOverlap() {
 	c := s.c
 	t := c.T
 	n := s.pickNode()
+	if !n.publisher && t.Chance("overlap-block-vs-its-txn", 1, 4) {
+		// the operation in progress is the execution of the publisher's next block; while it holds a read snapshot (if
+		// it opens one at all before it writes) one of the block's own transactions arrives from a peer
+		next := len(n.m.Chain)
+		if next >= 1 && next <= len(s.pubBlocks) && len(s.pubBlocks[next-1].Txns) > 0 {
+			b := s.pubBlocks[next-1]
+			tx := b.Txns[t.Int("overlap-block-txn", len(b.Txns))]
+			fired := false
+			// armed right before the node is handed the block (the harness's own look at the node comes first)
+			s.beforeExec = func() {
+				dbutil.VerifInView = func(db *dbutil.DB, name string) {
+					if fired || db.Path() != n.path {
+						return
+					}
+					fired = true
+					dbutil.VerifInView = nil
+					if _, pooled := n.m.Pool[tx.Hash()]; !pooled {
+						s.submitTxn(n, tx, false, kInject, "inject-during-block-execution")
+					}
+				}
+			}
+			s.submitBlock(n, b, "publisher-block:next", kDeliver)
+			s.beforeExec = nil
+			dbutil.VerifInView = nil
+			if fired {
+				c.Count("fault.block_execution_overlaps_arrival_of_its_transaction")
+			}
+			return
+		}
+	}
 	var ids []model.Hash
 	for _, h := range n.m.PoolHashes() {
 		ids = append(ids, n.m.Pool[h].Txn.In...)
@@ -376,7 +407,9 @@ func (s *ledgerSim) opOverlap() {
 	}
 	// the query that overlaps the write: a lookup by id, the balances of all addresses, their transaction history, or
 	// the verification of a pending transaction (each reads several buckets inside one snapshot)
-	switch t.Pick("overlap-read", 4, 2, 2, 2) {
+	switch t.Pick("overlap-read", 4, 2, 2, 2, 2) {
+	case 4:
+		_, _ = n.v.AddressCount()
 	case 0:
 		_, _ = n.v.GetUnspentOutputs(cids)
 	case 1:
@@ -690,7 +723,12 @@ func (s *ledgerSim) submitBlock(n *node, b model.Block, label string, kind byte)
 	pre := s.snapshot(n, s.prop == "C04")
 	verdict := n.m.CheckBlock(&b)
 	cb := cBlock(&b)
+	if s.beforeExec != nil {
+		s.beforeExec()
+		s.beforeExec = nil
+	}
 	err := n.v.ExecuteSignedBlock(cb)
+	dbutil.VerifInView = nil
 	accepted := err == nil
 	c.Kind(kind, accepted)
 	c.Logf("block n%d %s seq=%d time=%d ntx=%d -> accepted=%v (model %s:%s)", n.id, label, b.Head.BkSeq, b.Head.Time, len(b.Txns), accepted, verdict.V, verdict.Reason)
